@@ -207,4 +207,4 @@ def train_dqn(
 
     return namedtuple(
         "DQNResult", ["q_net", "optimizer", "replay_buffer", "global_step"]
-    )(q_net, optimizer, replay_buffer, step + 1)
+    )(q_net, optimizer, replay_buffer, step)
